@@ -67,37 +67,54 @@ pub fn now_for_refill() -> Instant {
 }
 /// under Kani the clock is exact; natively `Instant::now()` inside refill is a little later than the one taken before the call
 pub fn slack_secs() -> f64 { if cfg!(kani) { 0.0 } else { 1.0 } }
-pub fn refill_step(burst: u32, rate: u32, tokens: f64, back_secs: u32, back_nanos: u32) -> bool {
-    if back_nanos >= 1_000_000_000 || back_secs > 900_000 { return true; }
+pub fn refill_step(burst: u32, rate: u32, tokens: f64, back_secs: u32) -> bool {
+    if back_secs > 900_000 { return true; }
     let before = now_for_refill();
-    let back = Duration::new(back_secs as u64, back_nanos);
-    let last = match before.checked_sub(back) { Some(t) => t, None => return true };
+    let last = match before.checked_sub(Duration::new(back_secs as u64, 0)) { Some(t) => t, None => return true };
     let mut b = TokenBucket { tokens, last_update: last, max_tokens: burst as f64, refill_rate: rate as f64 };
     if !inv(&b) { return true; }
     b.refill();
-    let elapsed = back_secs as f64 + back_nanos as f64 / 1e9;
-    let credit_max = (elapsed + slack_secs()) * rate as f64;
-    b.last_update >= before && inv(&b) && b.tokens >= tokens && b.tokens <= tokens + credit_max
-        && (b.tokens == burst as f64 || b.tokens >= tokens + elapsed * rate as f64 - 1e-9)
+    // the reference time moves to `now`; the invariant is kept; tokens are never removed; never more than elapsed * rate is credited
+    b.last_update >= before && inv(&b) && b.tokens >= tokens && b.tokens <= tokens + (back_secs as f64 + slack_secs()) * rate as f64
 }
-// (the sub-second part of the elapsed time is concrete — 0 and 0.5 s — : `nanos as f64 / 1e9` over a symbolic u32 is a float divider that CBMC did
-// not finish in 900 s; the whole seconds, the bucket state and the burst are symbolic)
-vpv_cell!(#[kani::stub(std::time::Instant::now, stub_now_late)] c30_refill_rate1, "C30/TokenBucket::refill/rate = 1 (concrete): reference time moves to now, 0 <= tokens <= burst, credit == min(burst - tokens, elapsed * rate)", (burst: u32, tokens: f64, back_secs: u32), {
-    refill_step(burst, 1, tokens, back_secs, 0) && refill_step(burst, 1, tokens, back_secs, 500_000_000) });
-vpv_cell!(#[kani::stub(std::time::Instant::now, stub_now_late)] c30_refill_rate50, "C30/TokenBucket::refill/rate = 50 (concrete): reference time moves to now, 0 <= tokens <= burst, credit == min(burst - tokens, elapsed * rate)", (burst: u32, tokens: f64, back_secs: u32), {
-    refill_step(burst, 50, tokens, back_secs, 0) && refill_step(burst, 50, tokens, back_secs, 500_000_000) });
-vpv_cell!(#[kani::stub(std::time::Instant::now, stub_now_late)] c30_try_consume_rate50, "C30/TokenBucket::try_consume/rate = 50 (concrete): admits iff a whole token is available after refill and then removes exactly one", (burst: u32, tokens: f64, back_secs: u32), {
-    let back_nanos: u32 = 500_000_000;
+// (the elapsed time is a symbolic whole number of seconds: `nanos as f64 / 1e9` over a symbolic sub-second part is a float divider that CBMC did not
+// finish in 900 s; sub-second elapsed times are covered by the native cell below)
+vpv_cell!(#[kani::stub(std::time::Instant::now, stub_now_late)] c30_refill_rate1, "C30/TokenBucket::refill/rate = 1 (concrete), elapsed = any whole number of seconds: reference time moves to now, 0 <= tokens <= burst, tokens never removed, credit <= elapsed * rate", (burst: u32, tokens: f64, back_secs: u32), {
+    refill_step(burst, 1, tokens, back_secs) });
+vpv_cell!(#[kani::stub(std::time::Instant::now, stub_now_late)] c30_refill_rate50, "C30/TokenBucket::refill/rate = 50 (concrete), elapsed = any whole number of seconds: reference time moves to now, 0 <= tokens <= burst, tokens never removed, credit <= elapsed * rate", (burst: u32, tokens: f64, back_secs: u32), {
+    refill_step(burst, 50, tokens, back_secs) });
+vpv_cell!(#[kani::stub(std::time::Instant::now, stub_now_late)] c30_try_consume_rate1, "C30/TokenBucket::try_consume/rate = 1 (concrete): admits iff a whole token is available after refill and then removes exactly one", (burst: u32, tokens: f64, back_secs: u32), {
     if back_secs > 900_000 { return true; }
     let before = now_for_refill();
-    let last = match before.checked_sub(Duration::new(back_secs as u64, back_nanos)) { Some(t) => t, None => return true };
-    let mut b = TokenBucket { tokens, last_update: last, max_tokens: burst as f64, refill_rate: 50.0 };
+    let last = match before.checked_sub(Duration::new(back_secs as u64, 0)) { Some(t) => t, None => return true };
+    let mut b = TokenBucket { tokens, last_update: last, max_tokens: burst as f64, refill_rate: 1.0 };
     if !inv(&b) { return true; }
-    let mut r = TokenBucket { tokens, last_update: last, max_tokens: burst as f64, refill_rate: 50.0 };
+    let mut r = TokenBucket { tokens, last_update: last, max_tokens: burst as f64, refill_rate: 1.0 };
     r.refill();
     let admitted = b.try_consume();
     if cfg!(kani) { admitted == (r.tokens >= 1.0) && b.tokens == (if admitted { r.tokens - 1.0 } else { r.tokens }) && inv(&b) }
-    else { inv(&b) && (!admitted || r.tokens + 50.0 >= 1.0) }
+    else { inv(&b) && (!admitted || r.tokens + 1.0 >= 1.0) }
+});
+// sub-second elapsed times and repeated refills, natively (bounded stand-in): a bucket whose reference time lies d in the past is refilled TWICE in a
+// row; the total credit must stay below (time actually passed since the reference time) * rate — a refill that credits without advancing its reference time credits the same interval twice.
+vpv_native!(c30_refill_twice, "C30/TokenBucket::refill/two refills in a row credit an interval once: elapsed * rate <= credit <= (time actually passed) * rate (native enumeration: rates 1, 3, 50; elapsed 0..=2.5 s in 100 ms steps; 4 token levels)", {
+    let mut ok = true; let mut shown = 0;
+    for rate in [1u32, 3, 50] { for step in 0..=25u64 { for t0 in [0.0f64, 0.25, 1.0, 7.5] {
+        let good = vpv_enum_try(|| format!("rate={}/s burst=1000 tokens={} reference time {} ms in the past, refill(); refill()", rate, t0, step * 100), || {
+            let d = Duration::from_millis(step * 100);
+            let last = match Instant::now().checked_sub(d) { Some(t) => t, None => return true };
+            let mut b = TokenBucket { tokens: t0, last_update: last, max_tokens: 1000.0, refill_rate: rate as f64 };
+            b.refill(); b.refill();
+            let after = Instant::now();
+            let credit = b.tokens - t0;
+            // everything credited was credited before `after`: no slack is needed, the wall clock itself gives the bound
+            let bound = after.duration_since(last).as_secs_f64() * rate as f64 + 1e-6;
+            if !(credit <= bound && credit >= d.as_secs_f64() * rate as f64 - 1e-9) { println!("  credited {} tokens, elapsed*rate = {}", credit, d.as_secs_f64() * rate as f64); }
+            credit <= bound && credit >= d.as_secs_f64() * rate as f64 - 1e-9 && inv(&b)
+        });
+        if !good { ok = false; shown += 1; if shown >= 3 { return false; } }
+    } } }
+    ok
 });
 
 // ---- RateLimiter::check (tokio RwLock + HashMap + Instant::now): BOUNDED STAND-IN (native enumeration), rate 0 so that time does not matter.
@@ -128,4 +145,4 @@ vpv_native!(c30_check_tracked_clients, "C30/RateLimiter::check/a tracked client 
     } } } }
     ok
 });
-vpv_replay_table!(c30_new, c30_config_new, c30_remaining, c30_reset_after_rate0, c30_reset_after_full, c30_reset_after_positive_rate, c30_reset_after_rate1, c30_reset_after_rate50, c30_refill_rate1, c30_refill_rate50, c30_try_consume_rate50, c30_check_tracked_clients);
+vpv_replay_table!(c30_new, c30_config_new, c30_remaining, c30_reset_after_rate0, c30_reset_after_full, c30_reset_after_positive_rate, c30_reset_after_rate1, c30_reset_after_rate50, c30_refill_rate1, c30_refill_rate50, c30_try_consume_rate1, c30_refill_twice, c30_check_tracked_clients);
